@@ -65,4 +65,14 @@ TEXTS = {
         "level_text": "For each generated instance (7 operation kinds x track shapes x class lists x history flag) the fault-free run is compared with a sequential model (incl. the merge-history rule) and then the instance is re-executed once per callback invocation k with that invocation failing after it has mutated its arguments: Err, no notification and a bit-identical pre-state (attributes, observations of every class, metric state, merge history; both tracks still stored for store merges) are required. Exhaustive over fault positions per instance; instances are sampled (3e3 quick, 1e5 thorough).",
         "level_note": "Faults are injected only at the three user callbacks (update.apply, attributes.merge, metric.optimize); metric state is observed through a probe observation on a clone.",
     },
+    "C01": {
+        "technique": "runtime reference-model monitor at the API boundary (lifecycle model + id registry) with cross-check of the stored tracks; all four trackers driven by generated multi-scene histories",
+        "level_text": "Hundreds (quick) to thousands (thorough) of histories of 30..120 calls over all four tracker kinds, both positional metrics, shard / voting-shard / history / idle-limit ranges and the VisualSORT option grid, with duplicated detections, empty calls, appearing / disappearing objects and rotated boxes; every returned record is checked against the model (order, echo, epoch, length, id freshness, no id twice per call) and against the stored track.",
+        "level_note": "Histories are sampled. Workloads avoid the input class of the recorded C15 finding (near-coincident rotated boxes with own-area thresholds enabled), which would make VisualSORT panic inside geo 0.27.",
+    },
+    "C03": {
+        "technique": "runtime reference-model monitor after every API operation + differential runs of the same history under different collection (auto-waste) periods",
+        "level_text": "Random operation histories (predict / batches, skip, wasted, idle, clear_wasted, set_auto_waste) over 1..3 scenes for all four trackers; after each operation epochs, expiry, wasted / idle sets, physical store contents, statistics and conservation are compared with a lifecycle model; histories without clear_wasted are re-run with auto-waste periods 0 / 1 / 100 / sprinkled set_auto_waste calls and must produce identical records (up to id bijection), wasted sets, idle sets and epochs.",
+        "level_note": "Which ids clear_wasted removes is observed (wasted-store contents just before the call), not predicted. Histories are sampled.",
+    },
 }
